@@ -24,7 +24,7 @@ import (
 )
 
 func init() {
-	registerEngine("U", []string{"U1"}, runEngineU)
+	registerEngine("U", []string{"U1", "U2"}, runEngineU)
 }
 
 func runEngineU(p *Prog, o *obls) {
@@ -128,6 +128,36 @@ func runEngineU(p *Prog, o *obls) {
 				gs = append(gs, fieldName(fk))
 			}
 			sort.Strings(gs)
+			// U2: the packet path does not reset its own first-packet flag. The flag goes back to false when the object
+			// is cleared from outside (Unbind, Close, Clear); a store of false reachable from the function that has the
+			// first-packet branch makes the *next* packet a first packet again: the newest-mark is re-seeded from
+			// whatever arrives (possibly a late packet, moving it backwards) and no gap handling runs for it.
+			{
+				flagField := fieldOfAddr(flagAddr)
+				var resets []string
+				for f := range reachableFuncs(p, []*ssa.Function{fn}, false) {
+					instrsOf(f, func(in ssa.Instruction) {
+						st, ok := in.(*ssa.Store)
+						if !ok {
+							return
+						}
+						fa, ok := st.Addr.(*ssa.FieldAddr)
+						if !ok || fieldOfAddr(fa) != flagField || freshlyBuilt(p, fa, f) {
+							return
+						}
+						if cst, ok := st.Val.(*ssa.Const); ok && cst.Value != nil && cst.Value.String() == "false" {
+							resets = append(resets, fmt.Sprintf("%s (in %s)", p.instrPos(st), funcKey(f)))
+						}
+					})
+				}
+				k2 := fmt.Sprintf("%s:flag-reset(%s)", funcKey(fn), fieldName(fieldKeyAddr(flagAddr)))
+				if len(resets) > 0 {
+					sort.Strings(resets)
+					o.bad("U2", k2, p.instrPos(test), fmt.Sprintf("the function that handles the first packet can itself set %s back to false at %s: the next packet is then treated as the first one — the state the first-packet branch seeds is overwritten from whatever arrives next, without the handling a later packet gets", fieldName(fieldKeyAddr(flagAddr)), strings.Join(dedupe(resets), ", ")))
+				} else {
+					o.ok("U2", k2, p.instrPos(test), "nothing reachable from this function sets the flag back to false")
+				}
+			}
 			if len(bad) > 0 {
 				sort.Strings(bad)
 				o.bad("U1", key, p.instrPos(test), fmt.Sprintf("%s before the test of %s at %s, whose first-packet branch is what initialises it: on a fresh object the zero value is taken for a packet that was seen (the first packet is filed as a successor of number 0 and the flag is never set)", strings.Join(dedupe(bad), ", "), fieldName(fieldKeyAddr(flagAddr)), p.instrPos(test)))
@@ -137,6 +167,7 @@ func runEngineU(p *Prog, o *obls) {
 		}
 	}
 	o.ok("U1", "inspected", "-", fmt.Sprintf("%d first-packet branch(es)", n))
+	o.ok("U2", "inspected", "-", fmt.Sprintf("%d first-packet branch(es)", n))
 }
 
 func fieldName(fk string) string {
